@@ -20,10 +20,19 @@ GEN_POOLS = {
 }
 
 
+BIG_POOLS = {
+    "Z2": [0, 1],
+    "Z4": [0, 1, 2, 3],
+    "U1": [-4, -3, -2, -1, 0, 1, 2, 3, 5],
+    "Z2Z2": [(0, 0), (0, 1), (1, 0), (1, 1)],
+    "U1U1": [(a, b) for a in (-2, -1, 0, 1, 3) for b in (-2, 0, 1, 2)],
+}
+
+
 @st.composite
 def index_specs(draw, symm, max_charges=3, max_size=3, min_charges=1,
-                dual=None):
-    pool = GEN_POOLS[symm]
+                dual=None, big=False):
+    pool = BIG_POOLS[symm] if big else GEN_POOLS[symm]
     hi = min(max_charges, len(pool))
     k = draw(st.integers(min(min_charges, hi), hi))
     charges = draw(
@@ -142,6 +151,17 @@ def array_specs(
         ferm = False
     if idxs is None:
         nd = draw(st.integers(min_ndim, max_ndim))
+        if draw(st.integers(0, 15)) == 0:
+            # occasionally a larger structure: more charges (also of larger
+            # magnitude, see BIG_POOLS) and bigger blocks
+            max_charges = max(max_charges, 4)
+            max_size = max(max_size, 5)
+            idxs = [
+                draw(index_specs(symm, max_charges=max_charges,
+                                 max_size=max_size, min_charges=2, big=True))
+                for _ in range(nd)
+            ]
+    if idxs is None:
         idxs = [
             draw(
                 index_specs(
@@ -175,6 +195,11 @@ def array_specs(
         data = "int"
     if dyn is None:
         dyn = symm == "Z4" or draw(st.integers(0, 3)) == 0
+    if len(stored) > 1 and draw(st.booleans()):
+        # stored blocks in an arbitrary (not sorted) order: the data of a
+        # sector does not depend on its position, only the dict order does
+        stored = [stored[i] for i in draw(st.permutations(range(len(stored))))] \
+            if len(stored) <= 6 else stored[::-1]
     spec = {
         "symm": symm,
         "ferm": bool(ferm),
@@ -231,7 +256,9 @@ def make_blocks(spec):
     blocks = {}
     tag = 1
     mixed = dtype == "mixed"
-    for nblk, sec in enumerate(spec["sectors"]):
+    # block data is a function of the sector's rank in SORTED order, so that
+    # re-ordering the stored sectors changes only the dict order
+    for nblk, sec in enumerate(sorted(map(tuple, spec["sectors"]))):
         shape = tuple(ix["cm"][c] for c, ix in zip(sec, spec["idxs"]))
         if mixed:
             # blocks of differing dtype, as produced by real + complex
@@ -282,7 +309,8 @@ def make_blocks(spec):
         else:
             raise ValueError(kind)
         blocks[tuple(sec)] = np.asarray(b).astype(dtype)
-    return blocks
+    # stored order as listed in the spec
+    return {tuple(sec): blocks[tuple(sec)] for sec in spec["sectors"]}
 
 
 def apply_phase_recipe(x, recipe, stored):
